@@ -201,7 +201,8 @@ def main(argv):
             rec["kind"] = g.get("kind")
             rec["solver_output"] = [{"status": o["status"], "backend": o.get("backend"), "model": o.get("model"),
                                       "outcome": o.get("outcome"), "trace": o.get("trace"), "goal": o.get("goal"),
-                                      "where": o.get("where"), "info": o.get("info"), "replay": o.get("replay")} for o in obs[:5]]
+                                      "where": o.get("where"), "info": o.get("info"), "replay": o.get("replay"),
+                                      "replay_error": o.get("replay_error")} for o in obs[:5]]
             for o in obs:
                 rp = o.get("replay")
                 if rp and rp.get("reproduced"):
